@@ -30,3 +30,4 @@ PROP = {
     "assumptions": STD_ASSUME + ["element-wise results are compared bit for bit with the single IEEE operation computed by the driver in the same build"],
 }
 PROP["level_text"] += ' Since then: Matrix and Vector objects are also driven through random histories of mutations (=, +=, -=, [], Assign, Resize, Delete_Row/Column, copies, self-assignment) side by side with a reference model, and every binary operation also runs with the same object on both sides.'
+PROP["level_text"] += ' Products whose factors overflowed to infinities are compared entry by entry with the IEEE sum (class NaN / +inf / -inf / finite).'
